@@ -20,7 +20,7 @@ class Obs:
     pass
 
 
-def process_step(S, *, policy_kind=None, with_result=False, ttl=False):
+def process_step(S, *, policy_kind=None, with_result=False, ttl=False, explicit_retry=False):
     import repid.data._parameters as P
     from repid import Connection, InMemoryBucketBroker, InMemoryMessageBroker
     from repid._processor import _Processor
@@ -31,7 +31,7 @@ def process_step(S, *, policy_kind=None, with_result=False, ttl=False):
     o = Obs()
     o.k = k = S.int("already_tried", 0, None)
     o.N = N = S.int("max_amount", 0, None)
-    S.assume(k <= N)
+    # k may exceed N: forced retries push the counter above the budget (C04), and the ladder then has to treat the budget as spent
     o.fail = fail = S.bool("actor_fails")
     o.recurring = recurring = S.flag("recurring")
     o.p = p = S.int("period", SEC, HUNDRED_Y) if recurring else None
@@ -103,6 +103,12 @@ def process_step(S, *, policy_kind=None, with_result=False, ttl=False):
             raise ValueError("boom")
         return "ok"
 
+    o.explicit_retry = bool(explicit_retry and S.flag("actor_asks_for_the_retry_itself"))
+    if o.explicit_retry:
+        # the failure is expressed through the message API: `await message.retry()`; with the budget spent that call is
+        # refused (ValueError inside the actor), i.e. an ordinary failed execution
+        from harness.actors import explicit_retry_fn
+        fn = explicit_retry_fn(o.runs, fail)
     actor = mk_actor(fn, retry_policy=policy)
 
     o.delta = delta = S.int("listen_after", 0, HUNDRED_Y)
